@@ -29,7 +29,7 @@ CONSTANTS ItemKinds,    \* names of the items a program is built from
           MinItems,     \* programs shorter than this are not evaluated (simulation)
           Emit
 
-LocDevs == {"NewlineLocNextLine", "SetlocAfterLookahead", "DotDotRestore", "LineBase0"}
+LocDevs == {"NewlineLocNextLine", "SetlocAfterLookahead", "DotDotRestore"}
 
 VARIABLES prog,   \* sequence of item names
           viol    \* "" or the name of the violation item that ends the program
@@ -172,12 +172,8 @@ Scan1(t, st, deliv) ==
 SetDeliv(st, v) == [st EXCEPT !.raw[Len(st.raw)].deliv = v]
 ErrorAtLast(st) == [st EXCEPT !.err = Len(st.raw)]        \* error(&tok.loc, ...) for the token just scanned
 
-(* strtoull(lit, NULL, 0) on a digit sequence / what 6.10.4 asks for *)
-RECURSIVE OctPrefix(_)
-OctPrefix(ds) == IF ds = <<>> \/ ds[1] \notin OctDigit THEN <<>> ELSE <<ds[1]>> \o OctPrefix(Tail(ds))
-LineValue(lit) ==
-  IF Dev("LineBase0") /\ Len(lit) >= 2 /\ lit[1] = "0" THEN ValueInBase(OctPrefix(Tail(lit)), 8)
-  ELSE ValueInBase(lit, 10)
+(* strtoull(lit, NULL, 10) on a digit sequence (fix 13b585a; it was base 0) *)
+LineValue(lit) == ValueInBase(lit, 10)
 FileOfLit(lit) ==      \* strchr(lit, '"') + 1 up to the next '"'
   LET q == {i \in 1..Len(lit) : lit[i] = DQ}
       a == SetMin(q)
@@ -188,7 +184,7 @@ SkipNumbers(t, x) == IF x.kind = "TNUMBER" THEN SkipNumbers(t, Scan1(t, x.st, FA
 ToNewline(t, x) == IF x.kind \in {"TNEWLINE", "TEOF", "ERROR"} THEN x ELSE ToNewline(t, Scan1(t, x.st, FALSE))
 
 (* the `line:` path of directive(); x = result of scanning the number token *)
-LinePath(t, x, fired010) ==
+LinePath(t, x) ==
   LET n == LineValue(x.lit)
       y == Scan1(t, x.st, FALSE)
       z == IF y.kind = "TSTRINGLIT" THEN Scan1(t, y.st, FALSE) ELSE y
@@ -204,16 +200,14 @@ LinePath(t, x, fired010) ==
       sc2 == IF Dev("SetlocAfterLookahead")
              THEN [(IF lost THEN Fire(st.sc, "SetlocAfterLookahead") ELSE st.sc) EXCEPT !.line = 1, !.col = 1]
              ELSE [st.sc EXCEPT !.line = 1 + (st.sc.line - nextstart)]
-      sc3 == IF fired010 THEN Fire(sc2, "LineBase0") ELSE sc2
   IN IF w.kind # "TNEWLINE" THEN [w EXCEPT !.st = ErrorAtLast(w.st)]
-     ELSE [w EXCEPT !.st = [st EXCEPT !.sc = sc3, !.b = n, !.file = file]]
-Oct010(lit) == Dev("LineBase0") /\ Len(lit) >= 2 /\ lit[1] = "0" /\ ValueInBase(lit, 10) # LineValue(lit)
+     ELSE [w EXCEPT !.st = [st EXCEPT !.sc = sc2, !.b = n, !.file = file]]
 
 (* directive(): entered after '#' was scanned at the start of a line; returns the state after the directive *)
 Directive(t, st0) ==
   LET x == Scan1(t, st0, FALSE) IN
   IF x.kind = "TNEWLINE" THEN Act(x.st, "DirNull")
-  ELSE IF x.kind = "TNUMBER" THEN Act(LinePath(t, x, Oct010(x.lit)).st, "DirMarker")
+  ELSE IF x.kind = "TNUMBER" THEN Act(LinePath(t, x).st, "DirMarker")
   ELSE IF x.kind # "TIDENT" THEN ErrorAtLast(x.st)
   ELSE IF x.lit = cDEFINE THEN
     LET y == Scan1(t, x.st, FALSE) IN
@@ -222,7 +216,7 @@ Directive(t, st0) ==
   ELSE IF x.lit = cLINE THEN
     LET y == Scan1(t, x.st, FALSE) IN
     IF y.kind # "TNUMBER" THEN Act(ErrorAtLast(y.st), "DirLineErr")
-    ELSE Act(LinePath(t, y, Oct010(y.lit)).st, "DirLine")
+    ELSE Act(LinePath(t, y).st, "DirLine")
   ELSE IF x.lit = cPRAGMA THEN Act(ToNewline(t, Scan1(t, x.st, FALSE)).st, "DirPragma")
   ELSE Act(ErrorAtLast(x.st), "DirInvalid")
 
